@@ -577,9 +577,9 @@ class AndNotMatcher(BiMatcher):
         self._find_first()
 
     def _find_first(self):
-        if (self.a.is_active()
-            and self.b.is_active()
-            and self.a.id() == self.b.id()):
+        # The negative matcher may start before, at, or after the positive
+        # matcher; _find_next() catches it up and skips excluded documents
+        if self.a.is_active() and self.b.is_active():
             self._find_next()
 
     def is_active(self):
